@@ -454,6 +454,7 @@ type FuncContract struct {
 
 // CallAssert: an assertion that must hold at every call of Callee inside the function under contract.
 type CallAssert struct {
+	Props   []string // assert-store[C09] ...: generated only when one of these properties is being checked
 	Callee  string
 	Ordinal int // -1: every call; k: the k-th call of the callee in source order
 	C       *Clause
@@ -546,6 +547,9 @@ func ParseContractText(text, path, pkg string) (*ContractFile, error) {
 		if strings.HasPrefix(first, "requires[") {
 			first = "requires"
 		}
+		if strings.HasPrefix(first, "assert-store[") {
+			first = "assert-store"
+		}
 		if !clauseKeywords[first] && len(lines) > 0 {
 			lines[len(lines)-1].s += " " + body
 			continue
@@ -571,6 +575,10 @@ func ParseContractText(text, path, pkg string) (*ContractFile, error) {
 		if strings.HasPrefix(kw, "requires[") && strings.HasSuffix(kw, "]") {
 			scoped = strings.Split(kw[len("requires["):len(kw)-1], ",")
 			kw = "requires"
+		}
+		if strings.HasPrefix(kw, "assert-store[") && strings.HasSuffix(kw, "]") {
+			scoped = strings.Split(kw[len("assert-store["):len(kw)-1], ",")
+			kw = "assert-store"
 		}
 		switch kw {
 		case "import":
@@ -725,7 +733,7 @@ func ParseContractText(text, path, pkg string) (*ContractFile, error) {
 			if err != nil {
 				return nil, err
 			}
-			cur.StoreAsserts = append(cur.StoreAsserts, &CallAssert{Callee: strings.TrimSpace(rest[:k]), Ordinal: -1, C: c})
+			cur.StoreAsserts = append(cur.StoreAsserts, &CallAssert{Callee: strings.TrimSpace(rest[:k]), Ordinal: -1, C: c, Props: scoped})
 		case "modifies":
 			if cur == nil {
 				return nil, fail(l.n, "modifies outside func")
